@@ -152,7 +152,10 @@ func extractInstance(l *loaded, pkgKey, typeName string, entries, resets, config
 			continue
 		}
 		set := assignedBeforeLoop(e, false, map[string]bool{})
-		if d := delegate(e); d != "" {
+		// follow `return recv.Other(...)` delegation chains
+		seenD := map[string]bool{e: true}
+		for d := delegate(e); d != "" && !seenD[d]; d = delegate(d) {
+			seenD[d] = true
 			for k := range assignedBeforeLoop(d, false, map[string]bool{}) {
 				set[k] = true
 			}
